@@ -130,8 +130,31 @@ pub fn generate(rng: &mut Rng, tier: Tier, emit: &mut dyn FnMut(String)) {
         vec![pool[9].clone(), pool[20].clone(), pool[3].clone()],
         vec![pool[10].clone(), pool[22].clone(), pool[23].clone(), pool[21].clone()],
     ];
+    let no_vector = |ts: &[Ty]| {
+        fn nv(t: &Ty) -> bool {
+            match t {
+                Ty::Native(_) => true,
+                Ty::Vector(..) => false,
+                Ty::List(e) | Ty::Set(e) => nv(e),
+                Ty::Map(k, v) => nv(k) && nv(v),
+                Ty::Tuple(ts) => ts.iter().all(nv),
+                Ty::Udt(_, _, fs) => fs.iter().all(|(_, t)| nv(t)),
+            }
+        }
+        ts.iter().all(nv)
+    };
     for (i, (label, cd)) in ROW_LABELS.iter().enumerate() {
-        let show = |ts: &[Ty]| format!("tcrow {} | {} | {}{}", label, cd, ts.len(), ts.iter().map(|t| format!(" {}", ty_str(t))).collect::<String>());
+        // every row-level case twice: the bare type_check (`tcrow`) and through a parsed RESULT/Rows (`rows`)
+        let show = |ts: &[Ty]| {
+            let specs = format!("{}{}", ts.len(), ts.iter().map(|t| format!(" {}", ty_str(t))).collect::<String>());
+            if no_vector(ts) {
+                format!("rows {} | {} | {} | {}", label, cd, specs, 1 + ts.len() % 3)
+            } else {
+                format!("tcrow {} | {} | {}", label, cd, specs)
+            }
+        };
+        let show_tc = |ts: &[Ty]| format!("tcrow {} | {} | {}{}", label, cd, ts.len(), ts.iter().map(|t| format!(" {}", ty_str(t))).collect::<String>());
+        emit(show_tc(&row_nat[i]));
         let nat = &row_nat[i];
         emit(show(nat));
         // one column more / fewer, each column mutated
